@@ -329,3 +329,51 @@ func (p *Proc) Close() {
 	unregister(p.Pid)
 	_ = p.out.Close()
 }
+
+// ListenerOwnedByGroup reports whether a TCP socket listening on 127.0.0.1:port (or *:port) belongs to a live
+// process of the process group pgid. Ports are taken from ranges that other checks running on the same
+// machine use too: once our mosn has closed a listener, somebody else may bind the port, and a bare
+// connect cannot tell whose listener accepted.
+func ListenerOwnedByGroup(port, pgid int) bool {
+	inodes := map[string]bool{}
+	for _, f := range []string{"/proc/net/tcp", "/proc/net/tcp6"} {
+		b, err := os.ReadFile(f)
+		if err != nil {
+			continue
+		}
+		for _, line := range strings.Split(string(b), "\n")[1:] {
+			fs := strings.Fields(line)
+			if len(fs) < 10 || fs[3] != "0A" { // 0A = LISTEN
+				continue
+			}
+			i := strings.LastIndexByte(fs[1], ':')
+			if i < 0 {
+				continue
+			}
+			p, err := strconv.ParseInt(fs[1][i+1:], 16, 32)
+			if err != nil || int(p) != port {
+				continue
+			}
+			inodes[fs[9]] = true
+		}
+	}
+	if len(inodes) == 0 {
+		return false
+	}
+	for _, pid := range GroupPids(pgid) {
+		ents, err := os.ReadDir(fmt.Sprintf("/proc/%d/fd", pid))
+		if err != nil {
+			continue
+		}
+		for _, e := range ents {
+			l, err := os.Readlink(fmt.Sprintf("/proc/%d/fd/%s", pid, e.Name()))
+			if err != nil || !strings.HasPrefix(l, "socket:[") {
+				continue
+			}
+			if inodes[strings.TrimSuffix(strings.TrimPrefix(l, "socket:["), "]")] {
+				return true
+			}
+		}
+	}
+	return false
+}
